@@ -156,9 +156,35 @@ def bounded_checks(reg, tier, seed):
                             bad.append(dict(case, what='flags.ports do not name exactly the bound TCP ports (unix socket + --ports)'))
                         elif sorted(lines) != sorted(bound):
                             bad.append(dict(case, what='port file does not list exactly the bound ports'))
+        # several listening addresses (--hostnames), fixed ports only (with port 0 every address gets its own
+        # OS-assigned port and a single reported number is ambiguous): the same ports are bound on every address
+        # and must be reported exactly once each, whatever the order in which the listeners were created
+        for unix in (None, os.path.join(tmp, 'sock')):
+            for ports in ([], [9001], [9001, 9002]):
+                pf = os.path.join(tmp, 'ports')
+                flags = argparse.Namespace(unix_socket_path=unix, port=8899, ports=list(ports), hostname='127.0.0.1',
+                                           hostnames=['127.0.0.2'], port_file=pf)
+                self = pp.Proxy.__new__(pp.Proxy)
+                self.flags = flags
+                with mock.patch.object(lp, 'TcpSocketListener', FakeTcp), mock.patch.object(lp, 'UnixSocketListener', FakeUnix):
+                    try:
+                        ns['slice_'](self)
+                    except Exception as e:      # noqa
+                        bad.append({'unix': bool(unix), 'hostnames': 2, 'ports': ports, 'what': 'raised %r' % (e,)})
+                        continue
+                n += 1
+                lines = [int(x) for x in open(pf).read().split()]
+                want = ([] if unix else [8899]) + list(ports)
+                case = {'unix': bool(unix), 'listening_addresses': 2, 'port': 8899, 'ports': ports, 'flags.port': flags.port,
+                        'flags.ports': list(flags.ports), 'port_file': lines}
+                got = ([] if unix else [flags.port]) + list(flags.ports)
+                if sorted(got) != sorted(want) or (not unix and flags.port != 8899):
+                    bad.append(dict(case, what='reported ports %r, bound on every address: %r' % (got, want)))
+                elif sorted(lines) != sorted(want) or (not unix and lines[:1] != [8899]):
+                    bad.append(dict(case, what='port file %r does not list exactly %r (primary first)' % (lines, want)))
     finally:
         import shutil
         shutil.rmtree(tmp, ignore_errors=True)
     return [{'name': 'native option-grid sweep of ListenerPool.setup + Proxy.setup port write-back slice', 'bounded': True,
-             'bound': 'unix socket on/off x --port {0, fixed} x 6 --ports lists (0..3 entries, fixed and OS-assigned)',
+             'bound': 'unix socket on/off x --port {0, fixed} x 6 --ports lists (0..3 entries, fixed and OS-assigned); 2 listening addresses x fixed ports x 3 --ports lists',
              'cases': n, 'violations': bad[:3]}]
